@@ -18,7 +18,8 @@ func TestMain(m *testing.M) { kit.Main(m, "C09") }
 
 // Op is one step of a flow-control history. K:
 //
-//	send     the sender writes one DATA frame of N octets (+ padding) on stream S
+//	send     the sender writes one DATA frame of N octets (+ padding) on stream S,
+//	         with END_STREAM if End
 //	wu       the receiver grants N octets on stream S (S = -1: the connection)
 //	iws      the receiver announces SETTINGS_INITIAL_WINDOW_SIZE = N
 //	maxframe the receiver announces SETTINGS_MAX_FRAME_SIZE = N (never lowered)
@@ -33,6 +34,7 @@ type Op struct {
 	N   int    `json:"n,omitempty"`
 	Pad int    `json:"pad"`
 	Ack bool   `json:"ack,omitempty"`
+	End bool   `json:"end,omitempty"` // send: the frame carries END_STREAM (nothing follows on that stream)
 }
 
 // Case is one relay session with one DATA sender.
@@ -108,6 +110,12 @@ func (r *ref) apply(op Op) {
 			r.set["padded-data"] = true
 			if op.N == 0 {
 				r.set["padding-only-data"] = true
+			}
+		}
+		if op.End {
+			r.set["end-stream-data"] = true
+			if op.N > 0 {
+				r.set["end-stream-with-payload"] = true
 			}
 		}
 		r.queue[op.S] = append(r.queue[op.S], op.N)
@@ -211,6 +219,7 @@ func genCase(t *rapid.T) Case {
 	rIWS, rMax := 65535, 16384
 	pending := false
 	model := newRef(c.Streams)
+	closed := make([]bool, c.Streams)
 	for i := 0; i < n; i++ {
 		held, byConn := model.blocked()
 		kinds := []string{"send", "send", "send", "send", "send", "send", "wu", "wu", "iws", "iws", "maxframe", "ack"}
@@ -222,6 +231,21 @@ func genCase(t *rapid.T) Case {
 		switch k {
 		case "send":
 			op.S = rapid.IntRange(0, c.Streams-1).Draw(t, "stream")
+			if closed[op.S] {
+				// the sender has ended that stream: use another one, or do something else
+				op.S = -1
+				for s := range closed {
+					if !closed[s] {
+						op.S = s
+					}
+				}
+				if op.S < 0 {
+					op = Op{K: "wu", Pad: -1, S: -1, N: 1}
+					break
+				}
+			}
+			op.End = rapid.IntRange(0, 7).Draw(t, "end") == 0
+			closed[op.S] = op.End
 			limit := sIWS
 			if limit > 65535 {
 				limit = 65535
@@ -479,8 +503,16 @@ func (x *session) check(step int, what string) {
 				}
 			}
 			shape := "unpadded-data"
+			for _, op := range x.c.Ops[:min(step+1, len(x.c.Ops))] {
+				if op.K == "send" && op.End && flowLen(op) > 0 {
+					shape = "data-with-end-stream"
+				}
+			}
 			if padded {
 				shape = "padded-data"
+			}
+			if step < len(x.c.Ops) && x.c.Ops[step].K == "send" && x.c.Ops[step].End && flowLen(x.c.Ops[step]) > 0 {
+				shape = "data-with-end-stream" // the frame just sent is the one short of credit
 			}
 			_ = padOnly
 			class := "credit-short"
@@ -551,7 +583,7 @@ func runOnce(c Case, bound time.Duration) (kit.Verdict, bool) {
 		switch op.K {
 		case "send":
 			id := x.ids[op.S]
-			n, err := x.S.WriteData(id, kit.Bytes(uint64(i), op.N), op.Pad, false)
+			n, err := x.S.WriteData(id, kit.Bytes(uint64(i), op.N), op.Pad, op.End)
 			if err != nil {
 				x.fail(false, "C09/session/sender/connection-lost", "step %d: writing DATA: %v%s", i, err, x.diag())
 				return x.v, x.slow
@@ -625,7 +657,7 @@ var propHistories = &kit.Prop[Case]{
 	ID: "C09", Name: "histories",
 	Rule: "flow-control histories on one relay session, either direction: DATA sends (sizes up to what the sender may assume, padded or not) on 1..4 streams interleaved with the receiver's SETTINGS_INITIAL_WINDOW_SIZE / MAX_FRAME_SIZE changes (processed by the sender at once or later) and stream/connection WINDOW_UPDATEs (1 octet .. 1 MiB); after every step the relay is flushed with barrier frames and the receiver's ledger (never beyond granted credit, never above its frame size), the sender's credit (exactly the flow-controlled length) and frame-granular no-stranding are checked; non-trivial = a window reaches 0, a SETTINGS change with data queued, a padded frame, or a 1-octet increment",
 	Gen:  genCase, Run: run, NonTrivial: nontrivial, Classes: classes,
-	Gates: map[string]float64{"window-reaches-zero": 0.15, "padded-data": 0.15, "one-byte-increment": 0.15, "settings-change-with-data-queued": 0.10, "data-queued": 0.3},
+	Gates: map[string]float64{"end-stream-with-payload": 0.15, "window-reaches-zero": 0.15, "padded-data": 0.15, "one-byte-increment": 0.15, "settings-change-with-data-queued": 0.10, "data-queued": 0.3},
 }
 
 func TestHistories(t *testing.T) {
